@@ -282,6 +282,9 @@ async fn clean_connections(
         ::log::warn!("clock monotonicity failure, could not clean torrents and peers");
     }
 
+    #[cfg(aquatic_verif)]
+    aquatic_common::verif::count_per_thread("http.connections_cleaned");
+
     Some(Duration::from_secs(
         config.cleaning.connection_cleaning_interval,
     ))
